@@ -244,6 +244,9 @@ func (x *vc) doPanic(fr *frame, st *state, in *ssa.Panic) {
 	declared := ""
 	if x.topFC != nil {
 		declared = x.topFC.panics
+		if declared == "" {
+			declared = x.topFC.recovers
+		}
 	}
 	if declared == "" {
 		x.oblige(st, "panic-unreachable", "", "false", pos, "explicit panic must be unreachable", true)
@@ -251,7 +254,11 @@ func (x *vc) doPanic(fr *frame, st *state, in *ssa.Panic) {
 	}
 	// the panic value must have the declared dynamic type
 	id := x.typeIDByName(fr, declared)
-	x.oblige(st, "panic-type", "", and(eq(app("itag", v.T), smtInt(int64(id))), not(eq(app("ival", v.T), "0"))), pos, "panic value has dynamic type "+declared+" and is non-nil", true)
+	goal := eq(app("itag", v.T), smtInt(int64(id)))
+	if strings.HasPrefix(declared, "*") {
+		goal = and(goal, not(eq(app("ival", v.T), "0")))
+	}
+	x.oblige(st, "panic-type", "", goal, pos, "panic value has dynamic type "+declared+" (and is non-nil)", true)
 }
 
 func (x *vc) typeIDByName(fr *frame, name string) int {
@@ -310,9 +317,7 @@ func (x *vc) execInstr(fr *frame, st *state, instr ssa.Instruction) {
 		if id, ok := in.Expr.(interface{ String() string }); ok {
 			_ = id
 		}
-		if in.Object() != nil {
-			fr.named[in.Object().Name()] = append(fr.named[in.Object().Name()], namedDef{v: in.X, blk: in.Block(), addr: in.IsAddr})
-		}
+		// (source-level names are collected up front in execBody)
 	case *ssa.Alloc:
 		r := x.alloc(st, "alloc_"+in.Comment)
 		et := in.Type().Underlying().(*types.Pointer).Elem()
@@ -329,6 +334,17 @@ func (x *vc) execInstr(fr *frame, st *state, instr ssa.Instruction) {
 		addr := x.value(fr, st, in.Addr)
 		v := x.value(fr, st, in.Val)
 		x.nilCheck(st, addr, pos)
+		if fad, ok := in.Addr.(*ssa.FieldAddr); ok && len(x.p.cons.funcFields) > 0 {
+			if key, ok := x.p.cons.funcFields[fieldKey(fad.X.Type(), fad.Field)]; ok {
+				goal := "false"
+				if v.Fn != nil && fnKey(v.Fn) == key {
+					goal = "true"
+				}
+				if goal != "true" {
+					x.oblige(st, "funcfield", "", goal, pos, "field "+fieldKey(fad.X.Type(), fad.Field)+" must always hold function "+key, true)
+				}
+			}
+		}
 		if v.T == "" {
 			v = x.freshVal("opaque", in.Val.Type(), st)
 			v.Fn = nil
@@ -533,6 +549,14 @@ func (x *vc) unop(fr *frame, st *state, in *ssa.UnOp, pos string) Val {
 		if g, ok := in.X.(*ssa.Global); ok {
 			if gv, ok2 := x.globalValue(fr, st, g); ok2 {
 				return gv
+			}
+		}
+		if fad, ok := in.X.(*ssa.FieldAddr); ok && len(x.p.cons.funcFields) > 0 {
+			if key, ok := x.p.cons.funcFields[fieldKey(fad.X.Type(), fad.Field)]; ok {
+				if f := x.p.funcs[key]; f != nil {
+					// declared invariant: the field always holds this function (every store into it is checked)
+					return Val{T: smtInt(int64(x.srt.typeID(types.NewNamed(types.NewTypeName(0, nil, "fn:"+f.String(), nil), types.Typ[types.Int], nil)))), Typ: in.Type(), Fn: f}
+				}
 			}
 		}
 		r := x.load(st, v)
@@ -753,10 +777,12 @@ func (x *vc) ifaceEq(a, b Val) string {
 func (x *vc) strConcat(st *state, a, b Val, t types.Type) Val {
 	v := x.freshVal("concat", t, st)
 	x.assume(st.guard, eq(app("slen", v.T), app("+", app("slen", a.T), app("slen", b.T))))
-	// pointwise content (quantified, with patterns)
+	// pointwise content (quantified, with patterns): only where a contract asks for it
 	i := "ci!" + fmt.Sprint(x.fresh)
-	x.assume(st.guard, fmt.Sprintf("(forall ((%s Int)) (! (=> (and (<= 0 %s) (< %s (slen %s))) (= (sbyte %s %s) (ite (< %s (slen %s)) (sbyte %s %s) (sbyte %s (- %s (slen %s)))))) :pattern ((sbyte %s %s))))",
-		i, i, i, v.T, v.T, i, i, a.T, a.T, i, b.T, i, a.T, v.T, i))
+	if x.topFC != nil && x.topFC.preciseAppend {
+		x.assume(st.guard, fmt.Sprintf("(forall ((%s Int)) (! (=> (and (<= 0 %s) (< %s (slen %s))) (= (sbyte %s %s) (ite (< %s (slen %s)) (sbyte %s %s) (sbyte %s (- %s (slen %s)))))) :pattern ((sbyte %s %s))))",
+			i, i, i, v.T, v.T, i, i, a.T, a.T, i, b.T, i, a.T, v.T, i))
+	}
 	if a.Lit != nil && b.Lit != nil {
 		s := *a.Lit + *b.Lit
 		v.Lit = &s
@@ -992,6 +1018,9 @@ func (x *vc) convert(fr *frame, st *state, in *ssa.Convert, pos string) Val {
 		if sl, ok := from.Underlying().(*types.Slice); ok {
 			if b, ok2 := sl.Elem().Underlying().(*types.Basic); ok2 && b.Kind() == types.Uint8 {
 				x.assume(st.guard, eq(app("slen", r.T), app("sl_len", v.T)))
+			} else if ok2 && b.Kind() == types.Int32 {
+				// string([]rune): every rune is encoded in 1..4 bytes (invalid ones as U+FFFD, 3 bytes)
+				x.assume(st.guard, and(app("<=", app("sl_len", v.T), app("slen", r.T)), app("<=", app("slen", r.T), app("*", "4", app("sl_len", v.T)))))
 			}
 		}
 		return r
@@ -1079,6 +1108,9 @@ func (x *vc) next(fr *frame, st *state, in *ssa.Next) Val {
 	name, _ := x.cellArr(st, types.Typ[types.Int])
 	lv := &lvalue{arr: name, ref: it.Iter.cell}
 	pos := x.define("pos", sInt, x.loadLV(st, lv))
+	// the iterator position is always a byte offset inside the string (it starts at 0 and only Next advances it,
+	// by the width of the rune decoded there)
+	x.assume(st.guard, and(app("<=", "0", pos), app("<=", pos, app("slen", s.T))))
 	ok := x.define("ok", sBool, app("<", pos, app("slen", s.T)))
 	for k := 0; k < 4; k++ {
 		x.byteRange(st, app("sbyte", s.T, app("+", pos, smtInt(int64(k)))))
